@@ -255,4 +255,46 @@ theorem timestamp_roundtrip_proof (ts : Nat) (h : ts < 253402300800) :
   refine congrArg some ?_
   omega
 
+/-! ### time tuples and `datetime` objects -/
+
+/-- `calendar.timegm(time.gmtime(loc))` = `loc` -/
+theorem timegm_fields (loc : Nat) :
+    timegm (civilFromDays (loc / 86400)).1 (civilFromDays (loc / 86400)).2.1 (civilFromDays (loc / 86400)).2.2
+      (loc % 86400 / 3600) (loc % 86400 / 60 % 60) (loc % 86400 % 60) = loc := by
+  unfold timegm
+  rw [civil_roundtrip_all]
+  omega
+
+theorem dateTimeAt_timegm (loc : Nat) (off : Option Int) :
+    timegm (dateTimeAt loc off).y (dateTimeAt loc off).mo (dateTimeAt loc off).d (dateTimeAt loc off).h
+      (dateTimeAt loc off).mi (dateTimeAt loc off).s = loc := timegm_fields loc
+
+theorem dateTimeAt_year (loc : Nat) (off : Option Int) (h : loc < 253402300800) : ¬ (dateTimeAt loc off).y < 1970 := by
+  have := (civil_range (loc / 86400) (by omega)).1
+  show ¬ (civilFromDays (loc / 86400)).1 < 1970
+  omega
+
+/-- a naive `datetime` holding the UTC fields of `ts` formats like the integer `ts` -/
+theorem formatTimestampDT_naive_proof (ts : Nat) (h : ts < 253402300800) :
+    formatTimestampDT (dateTimeAt ts none) = .ok (formatTimestamp ts) := by
+  unfold formatTimestampDT
+  have ht : (dateTimeAt ts none).timeNum = (ts : Int) := by
+    unfold DateTime.timeNum
+    rw [dateTimeAt_timegm]
+    rfl
+  rw [if_neg (dateTimeAt_year ts none h), ht, if_neg (by omega)]
+  rfl
+
+/-- an aware `datetime` showing the instant `ts` on a wall clock `off` seconds ahead of UTC formats like the integer `ts` -/
+theorem formatTimestampDT_aware_proof (ts loc : Nat) (off : Int) (hloc : (loc : Int) = ts + off) (h : loc < 253402300800) :
+    formatTimestampDT (dateTimeAt loc (some off)) = .ok (formatTimestamp ts) := by
+  unfold formatTimestampDT
+  have ht : (dateTimeAt loc (some off)).timeNum = (ts : Int) := by
+    unfold DateTime.timeNum
+    rw [dateTimeAt_timegm]
+    show (loc : Int) - off = ts
+    omega
+  rw [if_neg (dateTimeAt_year loc (some off) h), ht, if_neg (by omega)]
+  rfl
+
 end TornadoModel.C43
